@@ -178,8 +178,11 @@ class Ctx:
         cov.update(self.notes)
         ev = {"property_id": self.prop, "tier": self.tier, "seed": self.seed, "level": "proof", "coverage": cov,
               "assumptions": self.assumptions, "wall_s": round(time.time() - self.t0, 2), "violations": nviol}
-        os.makedirs(os.path.join(ROOT, "evidence"), exist_ok=True)
-        tmp = os.path.join(ROOT, "evidence", f"{self.prop}.json.tmp")
+        # runs against a scratch tree (VERIF_REPO, used by harness/seedtest.py) must not overwrite the record about /repo
+        scratch = os.path.realpath(os.environ.get("VERIF_REPO", "/repo")) != os.path.realpath("/repo")
+        edir = os.path.join(ROOT, "replays", "_scratch_evidence") if scratch else os.path.join(ROOT, "evidence")
+        os.makedirs(edir, exist_ok=True)
+        tmp = os.path.join(edir, f"{self.prop}.json.tmp.{os.getpid()}")
         with open(tmp, "w") as fh:
             json.dump(ev, fh, indent=1, default=str)
-        os.replace(tmp, os.path.join(ROOT, "evidence", f"{self.prop}.json"))
+        os.replace(tmp, os.path.join(edir, f"{self.prop}.json"))
